@@ -30,6 +30,28 @@ type fakeRW struct {
 	onWrite  func(p []byte)
 	gateFn   func() // called before every write, outside the lock (stalled writer)
 	events   []string // trace of writes/flushes for the timed family
+	// holdFail: the first failing write parks until the harness releases it, so that connections that
+	// die because of the same publication die in a defined order (the model's: connection order)
+	holdFail bool
+	failCh   chan struct{}
+	failed   bool
+}
+
+// failParked reports whether a failing write is parked, waiting for release.
+func (w *fakeRW) failParked() bool {
+	w.mu.Lock()
+	defer w.mu.Unlock()
+
+	return w.failCh != nil
+}
+
+func (w *fakeRW) releaseFail() {
+	w.mu.Lock()
+	defer w.mu.Unlock()
+	if w.failCh != nil {
+		close(w.failCh)
+		w.failCh = nil
+	}
 }
 
 func zapNop() *zap.Logger { return zap.NewNop() }
@@ -60,6 +82,15 @@ func (w *fakeRW) Write(p []byte) (int, error) {
 	}
 	w.writes++
 	if w.failAt != 0 && w.writes >= w.failAt {
+		if w.holdFail && !w.failed {
+			w.failed = true
+			ch := make(chan struct{})
+			w.failCh = ch
+			w.mu.Unlock()
+			<-ch
+			w.mu.Lock()
+		}
+
 		return 0, errInjected
 	}
 	if !w.deadline.IsZero() && !time.Now().Before(w.deadline) {
